@@ -157,6 +157,11 @@ type FailoverController struct {
 	failoverTimer *time.Timer
 	failbackTimer *time.Timer
 
+	// failoverRunning is true while a goroutine is between the start of
+	// executeFailover and its completion (grace period, callback), so that a
+	// second trigger does not run the same promotion twice.
+	failoverRunning bool
+
 	// failoverGen identifies the currently armed failover timer. It is advanced
 	// whenever the timer is armed or canceled, so that a timer goroutine that
 	// had already fired when its timer was canceled (Stop returned false) can
@@ -296,7 +301,14 @@ func (c *FailoverController) ForceFailover(reason string) error {
 	c.logger.Warn("Forcing failover",
 		zap.String("reason", reason),
 	)
-	return c.initiateFailover(reason)
+	if err := c.initiateFailover(reason); err != nil {
+		return err
+	}
+	// initiateFailover only moves the controller to in_progress; complete the
+	// transition here, otherwise nothing ever would (no timer is pending when
+	// the partner is healthy) and the controller would stay in_progress forever.
+	c.executeFailover(reason, 0)
+	return nil
 }
 
 // ForceFailback forces an immediate failback (for manual intervention).
@@ -450,6 +462,13 @@ func (c *FailoverController) executeFailover(reason string, gen uint64) {
 		return
 	}
 
+	if c.failoverRunning {
+		// Another goroutine is already completing this failover.
+		c.mu.Unlock()
+		return
+	}
+	c.failoverRunning = true
+
 	c.state = FailoverStateInProgress
 	oldRole := c.currentRole
 	newRole := RoleActive
@@ -480,6 +499,7 @@ func (c *FailoverController) executeFailover(reason string, gen uint64) {
 			)
 			c.mu.Lock()
 			c.state = FailoverStateNormal
+			c.failoverRunning = false
 			c.mu.Unlock()
 			return
 		}
@@ -489,6 +509,7 @@ func (c *FailoverController) executeFailover(reason string, gen uint64) {
 	c.currentRole = newRole
 	c.state = FailoverStateComplete
 	c.lastRoleChange = time.Now()
+	c.failoverRunning = false
 	c.mu.Unlock()
 
 	atomic.AddUint64(&c.failoversCompleted, 1)
